@@ -425,3 +425,22 @@ def cell_presence_ops(n: int, cell: bool, op: int, a: int, k0: bool, k1: bool) -
         v = r.unitcell_volumes
         return v.shape == (r.n_frames,) and bool(np.all(v > 0)) and r.unitcell_vectors.shape == (r.n_frames, 3, 3)
     return r.unitcell_volumes is None if not have else True
+
+
+def recenter_after_inplace_edit(n: int, cell: bool, f: int, a: int, k: int, twice: bool) -> bool:
+    """
+    pre: 1 <= n <= 3 and 0 <= f < n and 0 <= a <= 2 and 0 <= k <= 2
+    post: __return__
+    """
+    # history: centre (traces cached), edit a coordinate IN PLACE through t.xyz[...] (no setter involved), centre again as the
+    # documentation prescribes: afterwards the trajectory is centred, its cached traces describe the CURRENT coordinates, and the
+    # pre-centred RMSD agrees with the freshly computed one
+    n, f, a, k = conc(n, 1, 3), conc(f, 0, 2), conc(a, 0, 2), conc(k, 0, 2)
+    t = mk(n, cell, True)
+    t.xyz[f, a, k] += np.float32(0.75)
+    t.center_coordinates()
+    if twice:
+        t.center_coordinates()
+    x = t.xyz.astype(np.float64)
+    centred = bool(np.all(np.abs(x.mean(axis=1)) < 1e-5))
+    return centred and inv(t) and rmsd_consistent(t)
